@@ -66,7 +66,8 @@ func (stressArea) Gen(r *hx.Rng, n int, tier string, emit func(string)) {
 			if wd == 0 {
 				wd = ncpu + 1
 			}
-			d = hx.Pick(r, []int{-1, 0, 1, 2, wd - 1, wd, wd + 1, 10, 17, 1 << 20, math.MinInt64})
+			d = hx.Pick(r, []int{-1, 0, 1, 2, wd - 1, wd, wd + 1, 10, 17, 1 << 20, math.MinInt64,
+				hugeDepths[r.Intn(len(hugeDepths))], hugeDepths[r.Intn(len(hugeDepths))]})
 			if r.Chance(1, 8) {
 				d = -1
 				flags |= flagNoDepth // New without the Depth option (unbounded)
